@@ -121,3 +121,247 @@ Print Assumptions C07_spec_exact.
 Theorem C07_run_meets_spec : forall s, valid s = true -> spec s (run s) = true.
 Proof. exact run_meets_spec. Qed.
 Print Assumptions C07_run_meets_spec.
+
+(* --------------------------------------------------------------------------------------------------------------
+   THE TRANSLATED SOURCE (gen/Gen_HeapC07.v, regenerated by tools/cxx2heap.py on every run) of the leak plugin's per-test actions and the detector functions they call computes the model's pre_action / post_action / final_report on the heap representation (C07_HeapRep.v)
+   -------------------------------------------------------------------------------------------------------------- *)
+From CppUVerif Require Import lib.CSem lib.CMem lib.CHeap gen.Gen_HeapC04 gen.Gen_HeapC07 C04_HeapRep C07_HeapRep C07_HeapTable C07_HeapTie.
+Local Open Scope Z_scope.
+Theorem C07_plugin_layout_is_the_source :
+  off_MemoryLeakWarningPlugin_memLeakDetector_ = Z0 /\
+  off_MemoryLeakWarningPlugin_ignoreAllWarnings_ = Zpos 1 /\
+  off_MemoryLeakWarningPlugin_destroyGlobalDetectorAndTurnOfMemoryLeakDetectionInDestructor_ = Zpos 2 /\
+  off_MemoryLeakWarningPlugin_expectedLeaks_ = Zpos 3 /\
+  off_MemoryLeakWarningPlugin_failureCount_ = Zpos 4 /\ cells_MemoryLeakWarningPlugin = Zpos 5.
+Proof. exact plugin_layout_is_the_source. Qed.
+Print Assumptions C07_plugin_layout_is_the_source.
+
+Theorem C07_detector_layout_is_the_source :
+  off_MemoryLeakDetector_reporter_ = Z0 /\
+  off_MemoryLeakDetector_current_period_ = Zpos 1 /\
+  off_MemoryLeakDetector_outputBuffer_ = Zpos 2 /\
+  off_MemoryLeakDetector_memoryTable_ = Zpos 3 /\
+  cells_MemoryLeakDetectorTable = BinInt.Z.of_N hash_prime /\
+  off_MemoryLeakDetector_doAllocationTypeChecking_ = BinInt.Z.add (Zpos 3) (BinInt.Z.of_N hash_prime) /\
+  cells_MemoryLeakDetector = Zpos 80 /\
+  off_MemoryLeakDetectorNode_period_ = Zpos 6 /\
+  off_MemoryLeakDetectorNode_memory_ = Zpos 2 /\
+  off_MemoryLeakDetectorNode_next_ = Zpos 8 /\ cells_MemoryLeakDetectorNode = Zpos 9.
+Proof. exact detector_layout_is_the_source. Qed.
+Print Assumptions C07_detector_layout_is_the_source.
+
+Theorem C07_table_at_is_off :
+  forall (h : heap) (bt : nat) (bss : list (list nat)) (t : table),
+  table_at h bt bss t -> table_at_off h bt 0 bss t.
+Proof. exact table_at_is_off. Qed.
+Print Assumptions C07_table_at_is_off.
+
+Theorem C07_src_table_getTotalLeaks_off_spec :
+  forall (fuel : nat) (h : heap) (bt o : nat) (bss : list (list nat)) (t : table) (per : period),
+  table_at_off h bt o bss t ->
+  (forall i : nat, (i < nbuckets)%nat -> (length (nth i t []) < fuel)%nat) ->
+  BinInt.Z.lt (BinInt.Z.of_nat (t_count t)) (BinInt.Z.pow (Zpos 2) (Zpos 64)) ->
+  (73 < fuel)%nat ->
+  src_table_getTotalLeaks fuel h (HPtr bt (BinInt.Z.of_nat o)) (period_code per) =
+  FOk (BinInt.Z.of_N (t_total per t)).
+Proof. exact src_table_getTotalLeaks_off_spec. Qed.
+Print Assumptions C07_src_table_getTotalLeaks_off_spec.
+
+Theorem C07_src_table_getFirstLeak_off_spec :
+  forall (fuel : nat) (h : heap) (bt o : nat) (bss : list (list nat)) (t : table) (per : period),
+  table_at_off h bt o bss t ->
+  (forall i : nat, (i < nbuckets)%nat -> (length (nth i t []) < fuel)%nat) ->
+  (73 < fuel)%nat ->
+  src_table_getFirstLeak fuel h (HPtr bt (BinInt.Z.of_nat o)) (period_code per) =
+  FOk (C04_HeapTable.tptr_first (fun n : node => is_in_period n per) bss t).
+Proof. exact src_table_getFirstLeak_off_spec. Qed.
+Print Assumptions C07_src_table_getFirstLeak_off_spec.
+
+Theorem C07_src_table_getNextLeak_off_spec :
+  forall (fuel : nat) (h : heap) (bt o : nat) (bss : list (list nat)) (t : table) (i k : nat)
+  (per : period) (d : node),
+  table_at_off h bt o bss t ->
+  (i < nbuckets)%nat ->
+  (k < length (nth i t []))%nat ->
+  hashN (n_addr (nth k (nth i t []) d)) = i ->
+  (forall j : nat, (j < nbuckets)%nat -> (length (nth j t []) < fuel)%nat) ->
+  (72 - i < fuel)%nat ->
+  src_table_getNextLeak fuel h (HPtr bt (BinInt.Z.of_nat o)) (HPtr (nth k (nth i bss []) 0%nat) Z0)
+  (period_code per) = FOk (C04_HeapTable.tptr_next (fun n : node => is_in_period n per) i k bss t).
+Proof. exact src_table_getNextLeak_off_spec. Qed.
+Print Assumptions C07_src_table_getNextLeak_off_spec.
+
+Theorem C07_d_mark_is_map_demote :
+  forall st : det, Inv (d_tbl st) -> d_mark st = Some (with_tbl st (map (map demote) (d_tbl st))).
+Proof. exact d_mark_is_map_demote. Qed.
+Print Assumptions C07_d_mark_is_map_demote.
+
+Theorem C07_src_det_startChecking_spec :
+  forall (fuel : nat) (h : heap) (dt : nat) (bss : list (list nat)) (d : det) (evs : list pev)
+  (counts : list Z) (ov : Z),
+  det_at h dt bss d ->
+  src_det_startChecking fuel h evs counts ov (HPtr dt Z0) =
+  FOk (tt, set_cell h dt 1 (VInt (Zpos 3)), evs ++ [PClearBuffer], counts, ov) /\
+  det_at (set_cell h dt 1 (VInt (Zpos 3))) dt bss (with_period d SChecking).
+Proof. exact src_det_startChecking_spec. Qed.
+Print Assumptions C07_src_det_startChecking_spec.
+
+Theorem C07_src_det_stopChecking_spec :
+  forall (fuel : nat) (h : heap) (dt : nat) (bss : list (list nat)) (d : det) (evs : list pev)
+  (counts : list Z) (ov : Z),
+  det_at h dt bss d ->
+  src_det_stopChecking fuel h evs counts ov (HPtr dt Z0) =
+  FOk (tt, set_cell h dt 1 (VInt (Zpos 2)), evs, counts, ov) /\
+  det_at (set_cell h dt 1 (VInt (Zpos 2))) dt bss (with_period d SEnabled).
+Proof. exact src_det_stopChecking_spec. Qed.
+Print Assumptions C07_src_det_stopChecking_spec.
+
+Theorem C07_src_det_totalMemoryLeaks_spec :
+  forall (fuel : nat) (h : heap) (dt : nat) (bss : list (list nat)) (d : det) (evs : list pev)
+  (counts : list Z) (ov : Z),
+  det_at h dt bss d ->
+  forall per : period,
+  fuel_ok fuel (d_tbl d) ->
+  BinInt.Z.lt (BinInt.Z.of_nat (t_count (d_tbl d))) (BinInt.Z.pow (Zpos 2) (Zpos 64)) ->
+  src_det_totalMemoryLeaks fuel h evs counts ov (HPtr dt Z0) (period_code per) =
+  FOk (BinInt.Z.of_N (t_total per (d_tbl d)), h, evs, counts, ov).
+Proof. exact src_det_totalMemoryLeaks_spec. Qed.
+Print Assumptions C07_src_det_totalMemoryLeaks_spec.
+
+Theorem C07_src_det_mark_model :
+  forall (fuel : nat) (h : heap) (dt : nat) (bss : list (list nat)) (d : det),
+  det_at h dt bss d ->
+  Inv (d_tbl d) ->
+  (t_count (d_tbl d) + 80 < fuel)%nat ->
+  exists (h' : heap) (d' : det),
+  d_mark d = Some d' /\
+  (forall (evs : list pev) (counts : list Z) (ov : Z),
+  src_det_markCheckingPeriodLeaksAsNonCheckingPeriod fuel h evs counts ov (HPtr dt Z0) =
+  FOk (tt, h', evs, counts, ov)) /\
+  det_at h' dt bss d' /\
+  length h' = length h /\
+  (forall b : nat, ~ In b (concat bss) -> hblock h' b = hblock h b) /\
+  (forall b k : nat, k <> 6%nat -> nth_error (hblock h' b) k = nth_error (hblock h b) k).
+Proof. exact src_det_mark_model. Qed.
+Print Assumptions C07_src_det_mark_model.
+
+Theorem C07_src_plugin_expectLeaksInTest_spec :
+  forall (fuel : nat) (h : heap) (pl dt : nat) (bss : list (list nat)) (w : world) (evs : list pev)
+  (counts : list Z) (ov : Z) (n : N),
+  world_at h pl dt bss w ->
+  n < 2 ^ 64 ->
+  src_plugin_expectLeaksInTest fuel h evs counts ov (HPtr pl Z0) (BinInt.Z.of_N n) =
+  FOk (tt, set_cell h pl 3 (VInt (BinInt.Z.of_N n)), evs, counts, ov) /\
+  world_at (set_cell h pl 3 (VInt (BinInt.Z.of_N n))) pl dt bss (exec_stmt w (SExpect n)).
+Proof. exact src_plugin_expectLeaksInTest_spec. Qed.
+Print Assumptions C07_src_plugin_expectLeaksInTest_spec.
+
+Theorem C07_src_plugin_ignoreAllLeaksInTest_spec :
+  forall (fuel : nat) (h : heap) (pl dt : nat) (bss : list (list nat)) (w : world) (evs : list pev)
+  (counts : list Z) (ov : Z),
+  world_at h pl dt bss w ->
+  src_plugin_ignoreAllLeaksInTest fuel h evs counts ov (HPtr pl Z0) =
+  FOk (tt, set_cell h pl 1 (VInt (Zpos 1)), evs, counts, ov) /\
+  world_at (set_cell h pl 1 (VInt (Zpos 1))) pl dt bss (exec_stmt w SIgnore).
+Proof. exact src_plugin_ignoreAllLeaksInTest_spec. Qed.
+Print Assumptions C07_src_plugin_ignoreAllLeaksInTest_spec.
+
+Theorem C07_src_plugin_preTestAction_spec :
+  forall (fuel : nat) (h : heap) (pl dt : nat) (bss : list (list nat)) (w : world) (evs : list pev)
+  (rest : list Z) (ov : Z),
+  world_at h pl dt bss w ->
+  w_failures w < 2 ^ 64 ->
+  exists h' : heap,
+  src_plugin_preTestAction fuel h evs (BinInt.Z.of_N (w_failures w) :: rest) ov (HPtr pl Z0) =
+  FOk (tt, h', evs ++ [PClearBuffer], rest, ov) /\
+  world_at h' pl dt bss (pre_action w) /\
+  length h' = length h /\ (forall b : nat, b <> pl -> b <> dt -> hblock h' b = hblock h b).
+Proof. exact src_plugin_preTestAction_spec. Qed.
+Print Assumptions C07_src_plugin_preTestAction_spec.
+
+Theorem C07_src_plugin_postTestAction_spec :
+  forall (fuel : nat) (h : heap) (pl dt : nat) (bss : list (list nat)) (w : world) (evs : list pev)
+  (rest : list Z) (ov : Z),
+  world_at h pl dt bss w ->
+  Inv (d_tbl (w_det w)) ->
+  (t_count (d_tbl (w_det w)) + 80 < fuel)%nat ->
+  BinInt.Z.lt (BinInt.Z.of_nat (t_count (d_tbl (w_det w)))) (BinInt.Z.pow (Zpos 2) (Zpos 64)) ->
+  exists h' : heap,
+  src_plugin_postTestAction fuel h evs (BinInt.Z.of_N (w_failures w) :: rest) ov (HPtr pl Z0) =
+  FOk (tt, h', evs ++ post_events w ov, post_counts w rest, ov) /\
+  world_at h' pl dt bss (fst (post_action w)) /\
+  length h' = length h /\
+  (forall b : nat, b <> pl -> b <> dt -> ~ In b (concat bss) -> hblock h' b = hblock h b) /\
+  (forall b k : nat, In b (concat bss) -> k <> 6%nat -> nth_error (hblock h' b) k = nth_error (hblock h b) k).
+Proof. exact src_plugin_postTestAction_spec. Qed.
+Print Assumptions C07_src_plugin_postTestAction_spec.
+
+Theorem C07_post_fire_model :
+  forall w : world,
+  (post_fire w = true <-> (exists l : list node, snd (post_action w) = Some l)) /\
+  (post_fire w = false <-> snd (post_action w) = None).
+Proof. exact post_fire_model. Qed.
+Print Assumptions C07_post_fire_model.
+
+Theorem C07_post_action_world :
+  forall w : world,
+  Inv (d_tbl (w_det w)) ->
+  w_det (fst (post_action w)) =
+  {|
+  d_tbl := map (map demote) (d_tbl (w_det w));
+  d_period := SEnabled;
+  d_stage := d_stage (w_det w);
+  d_seq := d_seq (w_det w)
+  |} /\
+  w_ignore (fst (post_action w)) = false /\
+  w_expected (fst (post_action w)) = 0 /\ w_fc0 (fst (post_action w)) = w_fc0 w.
+Proof. exact post_action_world. Qed.
+Print Assumptions C07_post_action_world.
+
+Theorem C07_src_plugin_postTestAction_overloaded :
+  forall (fuel : nat) (h : heap) (pl dt : nat) (bss : list (list nat)) (w : world) (evs : list pev)
+  (rest : list Z),
+  world_at h pl dt bss w ->
+  Inv (d_tbl (w_det w)) ->
+  (t_count (d_tbl (w_det w)) + 80 < fuel)%nat ->
+  BinInt.Z.lt (BinInt.Z.of_nat (t_count (d_tbl (w_det w)))) (BinInt.Z.pow (Zpos 2) (Zpos 64)) ->
+  exists h' : heap,
+  src_plugin_postTestAction fuel h evs (BinInt.Z.of_N (w_failures w) :: rest) (Zpos 1) (HPtr pl Z0) =
+  FOk (tt, h', evs ++ (if post_fire w then [PReport (Zpos 3); PFailure] else []), post_counts w rest, Zpos 1) /\
+  world_at h' pl dt bss (fst (post_action w)) /\
+  length h' = length h /\
+  (forall b : nat, b <> pl -> b <> dt -> ~ In b (concat bss) -> hblock h' b = hblock h b) /\
+  (forall b k : nat, In b (concat bss) -> k <> 6%nat -> nth_error (hblock h' b) k = nth_error (hblock h b) k).
+Proof. exact src_plugin_postTestAction_overloaded. Qed.
+Print Assumptions C07_src_plugin_postTestAction_overloaded.
+
+Theorem C07_post_events_no_failure :
+  forall w : world, ~ In PFailure (post_events w Z0).
+Proof. exact post_events_no_failure. Qed.
+Print Assumptions C07_post_events_no_failure.
+
+Theorem C07_src_plugin_FinalReport_spec :
+  forall (fuel : nat) (h : heap) (pl dt : nat) (bss : list (list nat)) (w : world) (evs : list pev)
+  (counts : list Z) (ov : Z) (tbd : N),
+  world_at h pl dt bss w ->
+  (t_count (d_tbl (w_det w)) + 80 < fuel)%nat ->
+  BinInt.Z.lt (BinInt.Z.of_nat (t_count (d_tbl (w_det w)))) (BinInt.Z.pow (Zpos 2) (Zpos 64)) ->
+  src_plugin_FinalReport fuel h evs counts ov (HPtr pl Z0) (BinInt.Z.of_N tbd) =
+  FOk
+  (if final_fires w tbd then (Zpos 1, h, evs ++ [PReport (Zpos 2)], counts, ov) else (Z0, h, evs, counts, ov)).
+Proof. exact src_plugin_FinalReport_spec. Qed.
+Print Assumptions C07_src_plugin_FinalReport_spec.
+
+Theorem C07_final_fires_model :
+  forall (w : world) (tbd : N),
+  (final_fires w tbd = true <-> (exists l : list node, fst (final_report w tbd) = Some l)) /\
+  (final_fires w tbd = false <-> fst (final_report w tbd) = None).
+Proof. exact final_fires_model. Qed.
+Print Assumptions C07_final_fires_model.
+
+Theorem C07_exw_post_by_theorem :
+  exists h' : heap,
+  src_plugin_postTestAction 200 exw_heap [] [Z0] (Zpos 1) (HPtr 0 Z0) =
+  FOk (tt, h', [PReport (Zpos 3); PFailure], [], Zpos 1) /\ world_at h' 0 1 exw_bss (fst (post_action exw_w)).
+Proof. exact exw_post_by_theorem. Qed.
+Print Assumptions C07_exw_post_by_theorem.
